@@ -70,6 +70,9 @@ def run(ctx):
     ctx.rule("R17.5", "COMMON is inserted exactly when common_prefix() returned a path, with that path")
     ctx.rule("R17.6", "file emission starts from a fresh file: RotatingTempFile::rotate returns Ok only after a newly created temp file replaced the old one, and "
                       "both file emitters rotate (propagating the error) before they write")
+    ctx.rule("R17.7", "common_prefix, structural part: for every further path the running prefix is cut to the number of leading components it "
+                      "shares with that path (a counter started at 0, incremented once per equal pair, stopped at the first unequal pair) unless that "
+                      "number is known to equal the prefix's length; the counting shape itself is what is decided, not path arithmetic in general")
     ctx.rule("R17.4", "the line format writes one line per (event, path, kind) in nested loop order events > paths > kinds, and a "
                       "pathed event without kind yields exactly one `other:` line per path")
 
@@ -266,6 +269,60 @@ def run(ctx):
         ctx.require(len(somes) == 1 and pats == ["FileEventKind"], "R17.3", "kinds-from-fek-tag",
                     "a kind is produced only for Tag::FileEventKind", c.loc(c.line), detail=str(pats),
                     fail="kinds are taken from tags other than FileEventKind (%s)" % pats)
+
+    # ---- R17.7 common_prefix shortens the running prefix on every path that can need it
+    try:
+        cp = ctx.anchor_fn("R17.7", "watchexec::paths::common_prefix")
+        enp = pathx.Enum(interesting=lambda d_: strip_generics(d_).endswith(("Vec::truncate", "Vec::len", "Iterator::zip")))
+        outer = set()
+        for q in enp.paths(thir.root(cp)):
+            for e in q.ev:
+                if e[0] == "loop" and e[2] == "for paths":
+                    outer |= set(e[1])
+        ctx.floor("R17.7", "per-path iterations of common_prefix", len(outer), 2)
+        bad7 = []
+        for it in outer:
+            inner = [e for e in it if e[0] == "loop"]
+            trunc = [[pathx.desc(a) for a in e[2]["a"]] for e in it if e[0] == "call" and strip_generics(e[1]).endswith("Vec::truncate")]
+            counters = set()
+            okin = len(inner) == 1
+            for l in inner:
+                for x in l[1]:
+                    eq = None
+                    for y in x:
+                        if y[0] == "branch":
+                            core, neg = pathx.split_not(y[1])
+                            if core.startswith("PartialEq::ne(component_pair.0"):
+                                eq = not (y[2] != neg)
+                            elif core.startswith("PartialEq::eq(component_pair.0"):
+                                eq = (y[2] != neg)
+                    incs = [y for y in x if y[0] == "assign" and y[3].get("k") == "assignop" and y[3].get("op") == "AddAssign" and y[2] == "1"]
+                    brk = ("loop-break",) in x
+                    if eq is True:
+                        okin = okin and len(incs) == 1 and not brk
+                        counters |= {y[1] for y in incs}
+                    elif eq is False:
+                        okin = okin and not incs and brk
+                    else:
+                        okin = False
+            cnt = list(counters)[0] if len(counters) == 1 else None
+            if not okin or cnt is None:
+                bad7.append("the shared-prefix count is not `0, +1 per equal pair, stop at the first unequal pair`: " + pathx.show_events(it)[:200])
+                continue
+            same_len = any(e[0] == "branch" and (implies(e[1], e[2], "%s Ne Vec::len(longest_path)" % cnt, False) or implies(e[1], e[2], "%s Eq Vec::len(longest_path)" % cnt, True)) for e in it)
+            if trunc:
+                if trunc != [["longest_path", cnt]]:
+                    bad7.append("the prefix is cut to %s, not to the shared-prefix count" % trunc)
+            elif not same_len:
+                bad7.append("the prefix is kept although nothing establishes that the whole of it is shared with this path: " + pathx.show_events([e for e in it if e[0] == "branch"])[:160])
+        inits = [pathx.desc(st["i"]) for st in thir.walk(thir.root(cp)) if isinstance(st, dict) and st.get("k") == "let" and st["p"].get("k") == "bind" and st["p"].get("n") == "greatest_distance"
+                 and isinstance(st.get("i"), dict)]
+        ctx.require(not bad7 and inits == ["0"], "R17.7", "prefix-cut-on-every-path", "each further path cuts the running prefix to their shared leading components", cp.loc(cp.line),
+                    detail="; ".join(bad7)[:400] + " init=%s" % inits,
+                    fail="common_prefix can keep a prefix that a later path does not share (e.g. when that path is a strict ancestor): COMMON is then deeper than some reported "
+                         "path - " + "; ".join(bad7)[:240])
+    except Skip:
+        pass
 
     # ---- R17.6 rotate-before-write
     try:
